@@ -252,4 +252,59 @@ theorem listed_tags_are_supported_tags (T : Table) (hT : Spec.TagsExactly T = tr
     exact ht)
   simpa using h2
 
+/-- every tag slot of the table restricts its tags to a list (none takes "any tag") -/
+def TagSlotsListed (T : Table) : Bool :=
+  T.all (fun d => d.args.all (fun a => !decide (ArgType.tag ∈ a.types) || a.values.isSome || !a.extValues.isEmpty))
+
+theorem live_table_tag_slots_listed : TagSlotsListed Generated.builtinTable = true := by decide +kernel
+
+/-- **every tag in an accepted tree is a tag of its command** (frozen vocabulary): a tag token recorded as an argument of a
+    node of an accepted script is, lower-cased, one of the tags the hand-written vocabulary gives that node's command -/
+theorem accepted_tags_are_supported_tags (TokP : Tok → Prop) (name : Bytes) (args extra : List Arg) (children : List Node)
+    (c : List Bytes) (k : String) (raw : Bytes)
+    (h : Typed.NodeT TokP Generated.builtinTable (.mk name args extra children c))
+    (ha : Arg.str k raw ∈ args)
+    (htagtok : ∀ tok : Tok, TokP tok → tok.text = raw → tok.kind = .tag) :
+    B.lower raw ∈ Spec.frozenTags name := by
+  obtain ⟨d, hnamed, hname, slot, hs, _, hval, tok, t, htok, htext, hvt, hk⟩ :=
+    typed_argument_facts TokP Generated.builtinTable name args extra children c k raw h ha
+  have hkind := htagtok tok htok htext
+  have ht : t = .tag := by
+    rcases hk with ⟨hk1, _⟩ | ⟨hk1, _⟩ | ⟨_, ht⟩
+    · rcases hk1 with hk1 | hk1 <;> (rw [hkind] at hk1; cases hk1)
+    · rw [hkind] at hk1; cases hk1
+    · exact ht
+  subst ht
+  have htag : ArgType.tag ∈ slot.types := by
+    simp only [Args.validType, Bool.or_eq_true, decide_eq_true_eq, Bool.and_eq_true, beq_iff_eq] at hvt
+    rcases hvt with hvt | ⟨hvt, _⟩
+    · exact hvt
+    · cases hvt
+  have hd : d ∈ Generated.builtinTable := by
+    obtain ⟨tk, _, _, hl⟩ := hnamed
+    unfold Table.lookup Table.findKey at hl
+    exact List.mem_of_find?_eq_some hl
+  have hlisted := List.all_eq_true.1 (List.all_eq_true.1 live_table_tag_slots_listed d hd) slot hs
+  have hmem : B.lower raw ∈ (slot.values.getD []) ++ slot.extValues.map (·.1) := by
+    rcases hval with ⟨h1, h2⟩ | h1 | h1
+    · simp [htag, h1, h2] at hlisted
+      cases hv : slot.values with
+      | none => rw [hv] at hlisted; cases hlisted
+      | some vs => rw [hv] at h1; cases h1
+    · cases hv : slot.values with
+      | none => simp [Args.inValues, hv] at h1
+      | some vs =>
+        simp only [Args.inValues, hv, decide_eq_true_eq] at h1
+        simp [hv, h1]
+    · simp only [Args.extLookup, Option.isSome_map] at h1
+      cases hf : slot.extValues.find? (fun p => p.1 == B.lower raw) with
+      | none => simp [hf] at h1
+      | some p =>
+        have hm := List.mem_of_find?_eq_some hf
+        have hp := List.find?_some hf
+        have : p.1 = B.lower raw := by simpa using hp
+        refine List.mem_append_right _ (List.mem_map.2 ⟨p, hm, this⟩)
+  rw [← hname]
+  exact listed_tags_are_supported_tags _ live_table_admits_exactly_the_supported_tags d hd slot hs htag _ hmem
+
 end C01
